@@ -195,4 +195,32 @@ pub open spec fn decode_known_panic(p: Seq<u8>) -> bool {
         || (!is_req(p[9]) && p.len() >= 13 && (p[11] > 5 || (p[11] == 0 && !resp_cmd_known(p[10])))))
 }
 
+/// exact error of the library's decoder, in its order of checks (used only to state C11 "the same error
+/// as decoding that input alone"; C09 itself only demands truthful errors, see C09.truthful)
+pub enum DecErr { Invalid, ShortCtrl, Completion(u8), BadPec, BadLen }
+pub open spec fn decode_err(p: Seq<u8>) -> DecErr {
+    if !hdr_ok(p) { DecErr::Invalid }
+    else if !is_ctrl(p) { DecErr::BadPec }
+    else if p.len() < 12 || (!is_req(p[9]) && p.len() < 13) { DecErr::ShortCtrl }
+    else if !is_req(p[9]) && p[11] != 0 { DecErr::Completion(p[11]) }
+    else if !pec_ok(p) { DecErr::BadPec }
+    else { DecErr::BadLen }
+}
+
+// =====================================================================================
+// request processing (C10-C15)
+// =====================================================================================
+/// accepted control request: the only inputs that are answered (C11)
+pub open spec fn is_answerable(p: Seq<u8>) -> bool { decode_accepts(p) && is_ctrl(p) && is_req(p[9]) }
+/// KNOWN FINDING D10 (recorded, C10): accepted control requests on which process_packet panics today
+///   D10a command 0x00 (unreachable!()), 0x07, 0x08 (unimplemented!())      [0x09.. is D9a]
+///   D10b Set Endpoint ID with operation Reset (2: unimplemented!()) or an operation byte above 3 (unreachable!())
+///   D10c Get Vendor Defined Message Support with a selector >= the number of configured sets (index / +1 overflow)
+pub open spec fn process_known_panic(p: Seq<u8>, n_vendor: int) -> bool {
+    is_answerable(p) && (
+        p[10] == 0 || p[10] == 7 || p[10] == 8
+        || (p[10] == 1 && !(p[11] == 0 || p[11] == 1 || p[11] == 3))
+        || (p[10] == 6 && p[11] as int >= n_vendor))
+}
+
 } // verus!
